@@ -1,10 +1,12 @@
 package s3afero
 
 import (
+	"bytes"
 	"crypto/md5"
 	"encoding/hex"
 	"fmt"
 	"io"
+	"io/ioutil"
 	"log"
 	"os"
 	"path"
@@ -446,13 +448,22 @@ func (db *MultiBucketBackend) GetObject(bucketName, objectName string, rangeRequ
 		return nil, err
 	}
 
+	// Read what was asked for while the lock is held: PutObject rewrites the
+	// file in place, so a reader that outlives the lock could deliver a mixture
+	// of two uploads, or fewer bytes than the size reported here.
+	body, err := ioutil.ReadAll(rdr)
+	if err != nil {
+		return nil, err
+	}
+	rdr.Close()
+
 	return &gofakes3.Object{
 		Name:     objectName,
 		Hash:     meta.Hash,
 		Metadata: meta.Meta,
 		Range:    rnge,
 		Size:     size,
-		Contents: rdr,
+		Contents: ioutil.NopCloser(bytes.NewReader(body)),
 	}, nil
 }
 
